@@ -1,0 +1,5 @@
+//go:build !verif
+
+package interp
+
+func verifYield(int, *lexer) int { return 0 }
